@@ -18,6 +18,8 @@ type scriptCase struct {
 	Ring  ringCfg `json:"ring"`
 	Dist  distCfg `json:"dist"`
 	Steps int     `json:"steps"`
+	// Fill: previous content of the receivers: "" uniform residues, "max" all q_i-1, "zero", "edge" {0,1,q_i-2,q_i-1}.
+	Fill string `json:"fill,omitempty"`
 }
 
 type step struct {
@@ -118,7 +120,7 @@ func samePoly(a, b ring.Poly) bool {
 
 // execScript runs the script on s. raaAsRead: ReadAndAdd steps are replaced by Read (the plain
 // replay that yields the fresh sample). Prior contents are a function of (fillKey, step index).
-func execScript(s ring.Sampler, r *ring.Ring, script []step, fillKey string, raaAsRead bool) []outRec {
+func execScript(s ring.Sampler, r *ring.Ring, script []step, fillKey, fill string, raaAsRead bool) []outRec {
 	views := []ring.Sampler{s}
 	recs := make([]outRec, len(script))
 	n := r.N()
@@ -139,7 +141,7 @@ func execScript(s ring.Sampler, r *ring.Ring, script []step, fillKey string, raa
 				q := r.SubRings[k].Modulus
 				p.Coeffs[k] = make([]uint64, n)
 				for j := range p.Coeffs[k] {
-					p.Coeffs[k][j] = fr.U64() % q
+					p.Coeffs[k][j] = fillValue(fr, fill, q)
 				}
 			}
 			recs[i].prior = copyPoly(p)
@@ -152,6 +154,19 @@ func execScript(s ring.Sampler, r *ring.Ring, script []step, fillKey string, raa
 		}
 	}
 	return recs
+}
+
+// fillValue: one reduced residue of the previous content of a receiver.
+func fillValue(fr *eng.Rand, fill string, q uint64) uint64 {
+	switch fill {
+	case "max":
+		return q - 1
+	case "zero":
+		return 0
+	case "edge":
+		return []uint64{0, 1, q - 2, q - 1}[fr.U64()&3]
+	}
+	return fr.U64() % q
 }
 
 func mformRef(x, q uint64) uint64 { return ref.MulMod(x%q, ref.TwoTo64Mod(q), q) }
@@ -237,7 +252,7 @@ func runScript(c *eng.Ctx, sc scriptCase) {
 	n := 1 << rc.LogN
 	name := dc.name()
 	pre := "C17|" + name
-	r, err := ring.NewRing(n, rc.Moduli)
+	r, err := newRing(rc)
 	if err != nil {
 		c.Inconclusive("ring.NewRing: " + err.Error())
 		return
@@ -258,7 +273,7 @@ func runScript(c *eng.Ctx, sc scriptCase) {
 			return
 		}
 		kk := k
-		if !c.Try(pre, func() { recs[kk] = execScript(s, r, script, "fill:"+c.CaseID, kk == 2) }) {
+		if !c.Try(pre, func() { recs[kk] = execScript(s, r, script, "fill:"+c.CaseID, sc.Fill, kk == 2) }) {
 			okAll = false
 		}
 	}
